@@ -12,7 +12,9 @@ Oracle : an invariant checker that derives 'direct members' from the Python runt
          4 ForwardRef node => cyclic; cyclic => revisit of a type that has its own node or is the root;
          5 every deferred node denotes exactly a member type of the graph (parameters included);
          6 a string-valued alias is one node carrying a ForwardRef to its body;
-         7 all input forms give the same sequence up to the root label.
+         7 all input forms give the same sequence up to the root label;
+         8 after the same module and class names have been defined again (reload), with warm caches, the graph
+           of the new class consists of the new classes.
 """
 
 from __future__ import annotations
@@ -85,6 +87,10 @@ def direct_members(u):
 
 
 def evaluate_ref(ref):
+    # a typing.ForwardRef that has been evaluated denotes its stored value (that is what every consumer,
+    # typing.get_type_hints included, gets from it); otherwise evaluate it in its own module
+    if getattr(ref, "__forward_evaluated__", False):
+        return ref.__forward_value__
     mod = sys.modules.get(ref.__forward_module__) if ref.__forward_module__ else None
     return ref._evaluate(dict(vars(mod)) if mod else {}, None, recursive_guard=frozenset())
 
@@ -371,6 +377,47 @@ def run_topology(t, col, flavours=None, mods=None):
                 check_program(spec, mat, col, case, nontrivial=shared)
 
 
+def check_reload(t, col, n):
+    """The same module and class names are defined again (a reload / re-run notebook cell): the graph of the
+    *new* class must be made of the new classes. Round 1 builds and uses routines (which evaluates deferred
+    references); round 2 re-creates the program under the same module names WITHOUT clearing any cache."""
+    spec = tp.to_spec(t, 0, "self")
+    tag = f"reload{n}"
+    for rnd in (1, 2):
+        try:
+            mat = U.materialise(spec, tag=tag)
+        except Exception as e:
+            col.label("harness:materialise-failed:" + type(e).__name__)
+            return
+        with mat:
+            if rnd == 1:
+                tl.clear_all()
+            col.ev()
+            case = {"spec": spec, "root": mat.root_expr, "topology": tp.describe(t), "reload_round": rnd}
+            k, nodes = tl.call(graph.static_order, mat.root)
+            if k == "exc":
+                col.violation("1-terminates", case, f"[reload round {rnd}] static_order raised {tl.exc_name(nodes)}: {nodes}", bucket="reload|" + exc_bucket(nodes))
+                return
+            check_nodes(nodes, mat.root, col, case, f"reload-round-{rnd}")
+            if rnd == 2:
+                col.nt(f"reload|{tp.describe(t)}")
+                col.label("reload-round-2-checked")
+                # every class-valued node of the new graph must be one of the *new* classes
+                new_classes = set(map(id, mat.classes.values()))
+                for n_ in nodes:
+                    d = denoted(n_) if is_deferred(n_) else n_.type
+                    if isinstance(d, type) and d.__module__.startswith("vu") and id(d) not in new_classes:
+                        col.violation("5-deferred-denotes-member", case, f"[reload round 2] node {n_!r} denotes a class of the previous definition of the module", bucket="reload|stale-class")
+                        break
+            else:
+                try:
+                    v = U.deep_value(spec, mat, 2)
+                    tl.call(tl.marshal, v, t=mat.root)
+                    tl.call(tl.unmarshal, mat.root, U.plain_wire(spec, v, mat))
+                except Exception:
+                    pass
+
+
 def run_shard(shard, col):
     if shard["kind"] == "special":
         check_special(col)
@@ -380,6 +427,8 @@ def run_shard(shard, col):
             if i % shard["mod"] == shard["rem"]:
                 col.label("topology:" + kind)
                 run_topology(t, col)
+                if kind == "cyc" and (i // shard["mod"]) % 5 == 0:
+                    check_reload(t, col, i)
         col.exhaustive_done = True
         return
     if shard["kind"] == "topo3":
